@@ -332,6 +332,34 @@ func c15cases(c *h.Ctx) []fileCase {
 	for k, v := range envs {
 		cases = append(cases, fileCase{name: "env_file:" + k, ext: ".yaml", content: ef, aux: map[string]string{"custom.env": v}})
 	}
+	for k, v := range map[string]string{"lone-double-quote": "A=\"\n", "lone-single-quote": "A='\n", "empty-quotes": "A=\"\"\n", "unbalanced-quote": "A=\"x\n", "quote-only-key": "=\"\n", "quoted-space": "A=\" \"\n", "pem-opening": "CERT=\"\n-----BEGIN-----\nabc\n\"\n", "single-char": "A=x\n", "equals-only": "=\n", "many-equals": "====\n"} {
+		cases = append(cases, fileCase{name: "env_file:" + k, ext: ".yaml", content: ef, aux: map[string]string{"custom.env": v}})
+	}
+	// imports that mix formats, in every order; the imported files share top-level sections with the importer
+	impY := "tasks:\n  from-yaml:\n    command: [\"true\"]\n    env: {A: \"1\"}\npipelines:\n  py: [{task: from-yaml}]\n"
+	impJ := "{\"tasks\": {\"from-json\": {\"command\": [\"true\"], \"env\": {\"A\": \"1\"}}}, \"pipelines\": {\"pj\": [{\"task\": \"from-json\"}]}}\n"
+	impT := "[tasks.from-toml]\ncommand = [\"true\"]\n[tasks.from-toml.env]\nA = \"1\"\n[[pipelines.pt]]\ntask = \"from-toml\"\n"
+	mixAux := map[string]string{"m/b.yaml": impY, "m/c.json": impJ, "m/d.toml": impT, "m/dir/e.yaml": strings.ReplaceAll(impY, "from-yaml", "from-dir"), "m/chain.yaml": "import: [\"c.json\"]\ntasks:\n  chain: {command: [\"true\"]}\n"}
+	orders := [][]string{{"m/c.json", "m/b.yaml"}, {"m/b.yaml", "m/c.json"}, {"m/d.toml", "m/b.yaml"}, {"m/b.yaml", "m/d.toml"}, {"m/c.json", "m/d.toml", "m/b.yaml"}, {"m/c.json", "m/dir"}, {"m/dir", "m/c.json", "m/b.yaml"}, {"m/chain.yaml", "m/b.yaml"}, {"m/d.toml", "m/chain.yaml", "m/dir"}, {"m/c.json", "m/c.json", "m/b.yaml"}}
+	for oi, ord := range orders {
+		var l []interface{}
+		for _, x := range ord {
+			l = append(l, x)
+		}
+		root := gen.OM{{K: "import", V: l}, {K: "tasks", V: gen.OM{{K: "own", V: gen.OM{{K: "command", V: []interface{}{"true"}}, {K: "env", V: gen.OM{{K: "A", V: "1"}}}}}}}}
+		for _, fc := range emitAll(root, fmt.Sprintf("mixed-format-imports#%d:%s", oi, strings.Join(ord, ","))) {
+			fc.aux = mixAux
+			cases = append(cases, fc)
+		}
+	}
+	// inclusion loops that are entered from an outside pipeline
+	for k, v := range map[string]string{
+		"entry-into-loop":     "tasks: {t: {command: [\"true\"]}}\npipelines:\n  entry: [{pipeline: inner}]\n  inner: [{pipeline: leaf}]\n  leaf: [{pipeline: inner}]\n",
+		"entry-into-selfloop": "tasks: {t: {command: [\"true\"]}}\npipelines:\n  a: [{pipeline: b}]\n  b: [{task: t}, {name: again, pipeline: b}]\n  c: [{pipeline: a}]\n  d: [{pipeline: c}]\n",
+		"two-entries":         "tasks: {t: {command: [\"true\"]}}\npipelines:\n  e1: [{pipeline: x}]\n  e2: [{pipeline: y}]\n  x: [{pipeline: y}]\n  y: [{pipeline: x}]\n",
+	} {
+		cases = append(cases, fileCase{name: "text:inclusion-" + k, ext: ".yaml", content: v})
+	}
 	cases = append(cases, fileCase{name: "env_file:missing", ext: ".yaml", content: ef})
 	cases = append(cases, fileCase{name: "env_file:directory", ext: ".yaml", content: ef, aux: map[string]string{"custom.env/x": "1"}})
 	cases = append(cases, fileCase{name: "env_file:absolute-missing", ext: ".yaml", content: strings.Replace(ef, "custom.env", "/nonexistent/dir/x.env", 1)})
